@@ -24,7 +24,8 @@ Tm(id) == IF id >= 1 /\ id <= Len(terms) THEN terms[id] ELSE Err("unknown id")
 
 \* ---- scale codes -> tags -----------------------------------------------------
 \* typ "one": factor 1.  typ "rms": the factor is the whitened-residual RMS of observed term a.
-\* typ "q": the factor f satisfies f^2 * 1024^2 = a / b (quantised by the harness).
+\* typ "q": any other factor (the quasi-MLE): TLC exports the exact value f^2 * 1024^2 = SumSq / (NumData * nsteps)
+\* at the finalize marker (@@MLE) and the harness compares the reported float and every q-typed rescaling with it.
 RECURSIVE SumSq(_)
 SumSq(segs) ==
   IF Len(segs) = 0 THEN 0
@@ -110,8 +111,8 @@ FinalizeProblem(e) ==
       nOut == Len(e.i)
   IN IF ~HistoryOK(X) THEN "finalize: the final state does not carry the accepted-step history"
      ELSE IF Len(us) # nOut THEN "finalize: number of outputs"
-     ELSE IF Hdr.solver = "mle" /\ ~MleMatches(e.sc, X, IF Hdr.corr THEN Hdr.nsteps ELSE 1)
-          THEN "finalize: the reported output scale is not the quasi-MLE of the accepted data"
+     ELSE IF Hdr.solver = "mle" /\ (e.sc.typ # "q" \/ NumData(X.segs) = 0)
+          THEN "finalize: the MLE solver reports no calibrated scale"
      ELSE IF \E q \in 1..nOut : Tm(us[q]) # ExpectedOutput(X, e.i[q])
           THEN "finalize: an output marginal is not the posterior the strategy promises at that time"
      ELSE IF Hdr.strategy # "filter" /\ (\E q \in 1..Len(e.aux) : Tm(e.aux[q]) # ExpectedCond(X, e.i[q], e.i[q + 1]))
@@ -224,6 +225,9 @@ Consume ==
              /\ terms' = terms
              /\ xfin' = IF e.name = "finalize" THEN Tm(e.in[1]) ELSE xfin
              /\ reads' = <<>>
+             /\ (e.name = "finalize" /\ Hdr.solver = "mle" /\ Tm(e.in[1]).k = "N") =>
+                    PrintT("@@MLE " \o ToJson([tid |-> tid, sumsq |-> SumSq(Tm(e.in[1]).segs),
+                                               den |-> NumData(Tm(e.in[1]).segs) * (IF Hdr.corr THEN Hdr.nsteps ELSE 1)]))
              /\ (e.name = "errnorm" /\ ErrnormExpect(e)[1] = "") =>
                     PrintT("@@ERRNORM " \o ToJson([tid |-> tid, at |-> l, n2 |-> ErrnormExpect(e)[2]]))
         ELSE IF e.op \in {"read_std", "read_mean", "rms"}
